@@ -490,6 +490,15 @@ fn blank_amount(r: &Row) -> Option<&'static str> {
     }
 }
 
+/// A withholding row whose Symbol is blank (the converter accepts it): it belongs to no dividend,
+/// so it must be surfaced like any other withholding without a dividend.
+/// NOT generated: the repository's own test `test_nra_tax_missing_symbol_is_ignored` pins that such
+/// a row is ignored without trace, and the statement's quantifier does not list blank symbols, so
+/// demanding that it be surfaced would be more than the property states (see DESIGN 7.3).
+fn symbolless_nra(_r: &Row) -> bool {
+    false
+}
+
 fn row_date(base: NaiveDate, r: &Row) -> NaiveDate {
     base + Duration::days(r.off as i64)
 }
@@ -532,7 +541,7 @@ fn row_json(base: NaiveDate, r: &Row, rows: &[Row]) -> Value {
         }
         Kind::Spa => mk("Stock Plan Activity", sym, money_text(qty, 1, false), "".into(), "".into(), "".into()),
         Kind::Dividend(k) => mk(DIV_ACTIONS[*k as usize % 4], sym, "".into(), "".into(), "".into(), blank_amount(r).map(String::from).unwrap_or_else(|| money_text(amount, r.style, r.style % 5 == 0))),
-        Kind::Nra(k) => mk(NRA_ACTIONS[*k as usize % 2], sym, "".into(), "".into(), "".into(), blank_amount(r).map(String::from).unwrap_or_else(|| money_text(amount, r.style, r.style % 3 != 0))),
+        Kind::Nra(k) => mk(NRA_ACTIONS[*k as usize % 2], if symbolless_nra(r) { "" } else { sym }, "".into(), "".into(), "".into(), blank_amount(r).map(String::from).unwrap_or_else(|| money_text(amount, r.style, r.style % 3 != 0))),
         Kind::Split => mk("Stock Split", sym, money_text(qty, 1, false), "".into(), "".into(), "".into()),
         Kind::NonCgt(k) => mk(NONCGT[*k as usize % NONCGT.len()], if r.style % 2 == 0 { "" } else { sym }, "".into(), "".into(), "".into(), money_text(amount, r.style, true)),
         Kind::Unknown(k) => mk(UNKNOWN[*k as usize % UNKNOWN.len()], sym, money_text(qty, 1, false), "".into(), "".into(), money_text(amount, 0, false)),
@@ -669,6 +678,8 @@ fn expectation(base: NaiveDate, rows: &[Row], awards_table: &BTreeMap<(String, N
     let mut nra: BTreeMap<(NaiveDate, String), Decimal> = BTreeMap::new();
     let mut skipped = 0;
     let mut blank_rows = 0;
+    let mut symbolless_dates: std::collections::BTreeSet<NaiveDate> = Default::default();
+    let mut symbolless_rows = 0;
     let mut unknown_actions = vec![];
     for r in rows {
         let date = row_date(base, r);
@@ -706,6 +717,10 @@ fn expectation(base: NaiveDate, rows: &[Row], awards_table: &BTreeMap<(String, N
             Kind::Dividend(_) => {
                 dividends.entry((date, sym)).or_insert((Decimal::ZERO, Decimal::ZERO)).0 += amount;
             }
+            Kind::Nra(_) if symbolless_nra(r) => {
+                // surfaced row by row or grouped per date: at least one per date
+                symbolless_dates.insert(date);
+            }
             Kind::Nra(_) => {
                 *nra.entry((date, sym)).or_insert(Decimal::ZERO) += amount;
             }
@@ -734,7 +749,14 @@ fn expectation(base: NaiveDate, rows: &[Row], awards_table: &BTreeMap<(String, N
             None => orphan += 1,
         }
     }
-    Ok(Expect { trades, dividends, skipped_min: skipped, skipped_max: skipped + orphan + blank_rows, unknown_actions, unmatched_cancels: unmatched, orphan_nra: orphan })
+    for r in rows {
+        if symbolless_nra(r) && blank_amount(r).is_none() {
+            symbolless_rows += 1;
+        }
+    }
+    let orphan_groups = orphan + symbolless_dates.len();
+    let orphan = orphan_groups;
+    Ok(Expect { trades, dividends, skipped_min: skipped, skipped_max: skipped + (orphan_groups - symbolless_dates.len()) + symbolless_rows + blank_rows, unknown_actions, unmatched_cancels: unmatched, orphan_nra: orphan })
 }
 
 fn trades_of(parsed: &[Transaction]) -> Vec<Trade> {
@@ -816,7 +838,10 @@ pub fn check18(c: &Case18, obs: &mut Obs) -> Verdict {
     }
     if exp.orphan_nra > 0 {
         obs.class("withholding_without_same_day_dividend");
-        let surfaced = out.skipped_count >= exp.skipped_min + exp.orphan_nra || out.warnings.iter().any(|w| w.to_lowercase().contains("withh") || w.to_lowercase().contains("nra") || w.to_lowercase().contains("tax"));
+        // every such row (one comment/warning per (date, symbol) group, or per symbol-less row)
+        // counted as skipped, or at least as many warnings about withholding as there are groups
+        let about = out.warnings.iter().filter(|w| w.to_lowercase().contains("withh") || w.to_lowercase().contains("nra") || w.to_lowercase().contains("tax")).count();
+        let surfaced = out.skipped_count >= exp.skipped_min + exp.orphan_nra || about >= exp.orphan_nra;
         if !surfaced {
             return Verdict::Known {
                 finding: "F15",
